@@ -1128,8 +1128,6 @@ type upstream struct {
 	calls []dns.Question
 }
 
-var upstreamIP = net.IP{198, 51, 100, 9}
-
 func (u *upstream) ServeDNS(ctx context.Context, rw dnsserver.ResponseWriter, req *dns.Msg) error {
 	u.mu.Lock()
 	u.calls = append(u.calls, req.Question[0])
@@ -1141,7 +1139,7 @@ func (u *upstream) ServeDNS(ctx context.Context, rw dnsserver.ResponseWriter, re
 	case dns.TypeTXT:
 		resp.Answer = append(resp.Answer, &dns.TXT{Hdr: hdr, Txt: []string{"from-upstream"}})
 	case dns.TypeA:
-		resp.Answer = append(resp.Answer, &dns.A{Hdr: hdr, A: upstreamIP})
+		resp.Answer = append(resp.Answer, &dns.A{Hdr: hdr, A: net.IP{198, 51, 100, 9}})
 	case dns.TypeAAAA:
 		resp.Answer = append(resp.Answer, &dns.AAAA{Hdr: hdr, AAAA: net.ParseIP("2001:db8::9")})
 	}
@@ -1169,6 +1167,13 @@ type fltObservation struct {
 type stack struct {
 	handler dnsserver.Handler
 	up      *upstream
+	// cloner is the one message pool of the stack, as in production: the
+	// message constructor allocates from it and every written response is
+	// disposed into it (what dnsserver.ServerBase does for plain DNS and DoT).
+	cloner *dnsmsg.Cloner
+	// lastDisposedTXT is the number of strings in the TXT record of the most
+	// recently disposed response that had one; -1 if there was none yet.
+	lastDisposedTXT int
 	mu      sync.Mutex
 	obs     fltObservation
 	laddr   net.Addr
@@ -1176,7 +1181,17 @@ type stack struct {
 }
 
 func (mo *monitor) newStack(worlds []*fworld, matcher filter.HashMatcher, errs *errRecorder) *stack {
-	st := &stack{up: &upstream{}}
+	st := &stack{up: &upstream{}, cloner: agdtest.NewCloner(), lastDisposedTXT: -1}
+	stackMsgs, err := dnsmsg.NewConstructor(&dnsmsg.ConstructorConfig{
+		Cloner:              st.cloner,
+		BlockingMode:        &dnsmsg.BlockingModeNullIP{},
+		StructuredErrors:    agdtest.NewSDEConfig(true),
+		FilteredResponseTTL: agdtest.FilteredResponseTTL,
+		EDEEnabled:          true,
+	})
+	if err != nil {
+		mo.t.Fatalf("dnsmsg.NewConstructor: %v", err)
+	}
 	flt := &agdtest.Filter{
 		OnFilterRequest: func(ctx context.Context, req *filter.Request) (filter.Result, error) {
 			st.mu.Lock()
@@ -1235,10 +1250,10 @@ func (mo *monitor) newStack(worlds []*fworld, matcher filter.HashMatcher, errs *
 	geo.OnData = func(string, netip.Addr) (*geoip.Location, error) { return nil, nil }
 	handlers, err := dnssvc.NewHandlers(context.Background(), &dnssvc.HandlersConfig{
 		BaseLogger:       discardLogger(),
-		Cloner:           agdtest.NewCloner(),
+		Cloner:           st.cloner,
 		Cache:            &dnssvc.CacheConfig{Type: dnssvc.CacheTypeNone},
 		HumanIDParser:    agd.NewHumanIDParser(),
-		Messages:         agdtest.NewConstructor(mo.t),
+		Messages:         stackMsgs,
 		StructuredErrors: agdtest.NewSDEConfig(true),
 		AccessManager: &agdtest.AccessManager{
 			OnIsBlockedHost: func(string, uint16) bool { return false },
@@ -1299,7 +1314,19 @@ func (st *stack) query(qname string, qt uint16) (resp *dns.Msg, upCalls []dns.Qu
 	st.mu.Lock()
 	obs = st.obs
 	st.mu.Unlock()
-	return rw.Msg(), st.up.take(), obs, err
+	// The server has "written" the response: keep a deep copy as what the
+	// client received and dispose the original, after which its parts are
+	// reused for later responses.
+	if written := rw.Msg(); written != nil {
+		resp = written.Copy()
+		for _, rr := range written.Answer {
+			if t, ok := rr.(*dns.TXT); ok {
+				st.lastDisposedTXT = len(t.Txt)
+			}
+		}
+		st.cloner.Dispose(written)
+	}
+	return resp, st.up.take(), obs, err
 }
 
 // wireName renders a normalised host the way a client may send it: fully
@@ -1409,6 +1436,7 @@ func (mo *monitor) filterWorld() {
 				mo.checkMatcher(ctx, "matcher-shared", matcher, nil, mods, q, where)
 				mo.checkStackTXT(st, rng, mods, q, where)
 			}
+			mo.stackTXTPairs(st, rng, mods, suffix, fw.cur, fw.prev, r.N(300, 1500), map[string]any{"filter": string(fw.id), "version": v, "history": "pair"})
 		}
 
 		// (3) Host questions through the handler stack.
@@ -1673,6 +1701,11 @@ func (mo *monitor) checkStackTXT(st *stack, rng *rand.Rand, mods map[string]*mod
 	var resp *dns.Msg
 	var up []dns.Question
 	var err error
+	if kind == txtWellFormed && len(want) == 0 && st.lastDisposedTXT > 0 {
+		// The pooled TXT record that will most likely carry this empty answer
+		// still holds the strings of an earlier response.
+		r.Bucket("stack_txt_empty_answers_after_disposed_nonempty_txt", 1)
+	}
 	func() {
 		defer func() {
 			if p := recover(); p != nil {
@@ -1748,6 +1781,53 @@ func (mo *monitor) checkStackTXT(st *stack, rng *rand.Rand, mods map[string]*mod
 	}
 	if r.BucketGet("stack_txt_queries")%1201 == 5 {
 		r.Sample(w)
+	}
+}
+
+// stackTXTPairs sends histories "prefix with listed names, then prefix without
+// any" (and "prefix of a name the last refresh removed") back to back from one
+// goroutine, so that the second answer is built from the message parts the
+// server has just disposed.
+func (mo *monitor) stackTXTPairs(st *stack, rng *rand.Rand, mods map[string]*model, suffix string, cur, prev *model, n int, where map[string]any) {
+	if len(cur.names) == 0 {
+		return
+	}
+	var removed []string
+	if prev != nil {
+		for _, nm := range prev.names {
+			if !cur.has(nm) && !cur.sharesPrefix(nm) {
+				removed = append(removed, nm)
+			}
+		}
+	}
+	for i := 0; i < n; i++ {
+		h := sha256.Sum256([]byte(cur.names[rng.IntN(len(cur.names))]))
+		first := hex.EncodeToString(h[:2])
+		if rng.IntN(3) == 0 {
+			h2 := sha256.Sum256([]byte(cur.names[rng.IntN(len(cur.names))]))
+			first += "." + hex.EncodeToString(h2[:2])
+		}
+		mo.checkStackTXT(st, rng, mods, txtQuery{first + suffix, "pair:listed-prefix"}, where)
+		var second string
+		kind := "pair:prefix-without-names"
+		if len(removed) > 0 && rng.IntN(3) == 0 {
+			hr := sha256.Sum256([]byte(removed[rng.IntN(len(removed))]))
+			second = hex.EncodeToString(hr[:2])
+			kind = "pair:prefix-of-removed-name"
+		} else {
+			for {
+				second = randHex(rng, 4)
+				b, _ := hex.DecodeString(second)
+				if len(cur.byPrefix[[2]byte{b[0], b[1]}]) == 0 {
+					break
+				}
+			}
+		}
+		if rng.IntN(4) == 0 {
+			second += randHex(rng, 4) // legacy form
+		}
+		mo.checkStackTXT(st, rng, mods, txtQuery{second + suffix, kind}, where)
+		mo.r.Bucket("stack_txt_pairs", 1)
 	}
 }
 
@@ -2273,6 +2353,8 @@ func TestCheck(t *testing.T) {
 	r.Require("filter_near_miss:nonfilterable-qtype", 1000)
 	r.Require("stack_txt_answers_with_hashes", 300)
 	r.Require("stack_txt_queries_malformed", 150)
+	r.Require("stack_txt_pairs", 2000)
+	r.Require("stack_txt_empty_answers_after_disposed_nonempty_txt", 2000)
 	r.Require("stack_txt_queries_not-hash-query", 30)
 	r.Require("stack_host_matched", 100)
 	r.Require("stack_host_passed", 300)
